@@ -1,6 +1,7 @@
-"""Obligation groups built on the MIR engine (E1): selection of (format, q, lz) classes per tier,
+"""Obligation groups built on the MIR engine (E1) and Kani (E2): selection of (format, q, lz) classes per tier,
 running them in the pool, replaying counterexamples on the real crate, recording into a Report."""
 import random
+import re
 import time
 
 from mir2smt import specs
@@ -251,3 +252,50 @@ def validate_translator(report, config, seed, n=400):
     report.group("translator-validation/%s" % config, len(cases), len(cases) - bad,
                  {"entry": entry, "note": "concrete inputs through the MIR interpreter must equal the compiled function bit for bit"})
     return bad == 0
+
+
+# --------------------------------------------------------------------------
+# Kani groups (engine E2)
+# --------------------------------------------------------------------------
+
+def run_kani(report, crate, config, harnesses, label, timeout=600, lanes=None, role_extra=None, cover_required=True):
+    from . import kani as K
+    res = K.run_many(crate, config, harnesses, lanes=lanes, timeout=timeout)
+    ok = 0
+    tot_t = 0.0
+    for r in res:
+        tot_t += r.get("time_s") or 0.0
+        report.queries += 1
+        if r["status"] == "holds":
+            if cover_required and r["covers_unsat"]:
+                report.error("vacuity witness unsatisfied in %s: %s" % (r["harness"], r["covers_unsat"][:3]))
+                continue
+            ok += 1
+            report.sample({"kani_harness": r["harness"], "config": config, "cbmc_s": r.get("time_s"),
+                           "covers_satisfied": r.get("covers_sat")})
+        elif r["status"] == "failed":
+            desc = "Kani harness %s (%s) failed: %s" % (r["harness"], config, r["failed_checks"][:3])
+            rep, src, log = K.replay(crate, config, r["harness"])
+            role = {"obligation": "kani", "harness": r["harness"].split("::")[-1], "config": config}
+            role.update(role_extra or {})
+            if rep:
+                report.violation(desc, {"kind": "kani", "crate": crate, "config": config, "harness": r["harness"],
+                                        "failed_checks": r["failed_checks"][:10], "playback_test": src,
+                                        "playback_log": log[-1500:]}, role)
+            else:
+                # standard-level UB (e.g. an out-of-bounds pointer) does not reproduce as a failing test
+                ub = [c for c in r["failed_checks"] if re.search(r"pointer|dereference|memcpy|out of bounds|overlap|invalid", c["desc"] + c["check"])]
+                if ub:
+                    report.violation(desc + " [memory-safety check; counterexample not observable natively]",
+                                     {"kind": "kani", "crate": crate, "config": config, "harness": r["harness"],
+                                      "failed_checks": r["failed_checks"][:10], "playback_test": src,
+                                      "playback_log": log[-1500:], "note": "UB-class failure, triaged by check kind"}, role)
+                else:
+                    report.undecided("Kani counterexample for %s did not reproduce natively: %s" % (r["harness"], r["failed_checks"][:2]),
+                                     {"obligation": "kani", "nonrepro": True})
+        else:
+            report.undecided("Kani harness %s (%s): no verdict (%s)" % (r["harness"], config, r.get("tail", "")[-200:].replace("\n", " ")),
+                             {"obligation": "kani", "harness": r["harness"].split("::")[-1], "config": config})
+    report.solver_s += tot_t
+    report.group("%s/%s" % (label, config), len(res), ok, {"harnesses": [r["harness"] for r in res][:40]})
+    return res
